@@ -264,6 +264,55 @@ impl Profile {
     }
 }
 
+/// A hard I/O fault planned for one run of the *non-gating* fault exploration (DESIGN §4.4):
+/// the `at`-th file read (or the directory listing) misbehaves in a way a correct program cannot
+/// be expected to mask.
+#[derive(Clone, Copy, Debug, PartialEq, Eq, PartialOrd, Ord)]
+pub enum HardKind {
+    /// read fails with EIO
+    ReadEio,
+    /// read fails with ENOENT (file vanished between listing and reading)
+    ReadEnoent,
+    /// read returns a proper prefix of the file (torn / truncated file)
+    Truncated,
+    /// one bit of the content is flipped (still valid UTF-8 only by luck)
+    BitFlip,
+    /// the directory listing yields an error entry at position `at`
+    DirEntryErr,
+    /// read_dir itself fails
+    ReadDirErr,
+}
+
+impl HardKind {
+    pub const ALL: [HardKind; 6] = [
+        HardKind::ReadEio,
+        HardKind::ReadEnoent,
+        HardKind::Truncated,
+        HardKind::BitFlip,
+        HardKind::DirEntryErr,
+        HardKind::ReadDirErr,
+    ];
+    pub fn name(self) -> &'static str {
+        match self {
+            HardKind::ReadEio => "read_eio",
+            HardKind::ReadEnoent => "read_enoent",
+            HardKind::Truncated => "truncated_file",
+            HardKind::BitFlip => "bit_flip",
+            HardKind::DirEntryErr => "dir_entry_error",
+            HardKind::ReadDirErr => "read_dir_error",
+        }
+    }
+}
+
+#[derive(Clone, Copy, Debug)]
+pub struct HardPlan {
+    pub kind: HardKind,
+    /// index of the read / directory entry that misbehaves
+    pub at: u64,
+    /// extra entropy (truncation point, bit position)
+    pub salt: u64,
+}
+
 pub enum Mode {
     Random { rng: Rng, profile: Profile },
     Replay { q: VecDeque<Decision> },
@@ -334,6 +383,10 @@ pub struct World {
     /// replay asked for a decision the schedule did not have
     pub diverged: bool,
     pub next_container: u32,
+    /// non-gating fault exploration only
+    pub hard: Option<HardPlan>,
+    pub hard_fired: bool,
+    pub reads_seen: u64,
     /// optional human-readable event log (determinism proof / replay dumps)
     pub verbose_log: Option<Vec<String>>,
 }
@@ -385,6 +438,9 @@ impl World {
             dir_orders: vec![],
             diverged: false,
             next_container: 0,
+            hard: None,
+            hard_fired: false,
+            reads_seen: 0,
             verbose_log: if verbose { Some(vec![]) } else { None },
         }
     }
